@@ -211,7 +211,13 @@ impl RawLexiconEntry {
         w.write_all(&self.pos.to_le_bytes())?;
         size += 2;
         size += u16w.write_empty_if_equal(w, self.norm_form(), self.headword())?;
-        w.write_all(&self.dic_form.as_raw().to_le_bytes())?;
+        // stored as a plain index into the same lexicon (-1 if absent), without dictionary bits
+        let dic_form = if self.dic_form == WordId::INVALID {
+            self.dic_form.as_raw()
+        } else {
+            self.dic_form.word()
+        };
+        w.write_all(&dic_form.to_le_bytes())?;
         size += 4;
         size += u16w.write_empty_if_equal(w, self.reading(), self.headword())?;
         size += write_u32_array(w, &self.splits_a)?;
@@ -437,7 +443,15 @@ impl LexiconReader {
             }
 
             if e.dic_form != WordId::INVALID {
-                ctx.transform(Self::validate_wid(e.dic_form, max_0, max_1, "dic_form"))?;
+                // the dictionary form is looked up in the lexicon which contains the entry itself
+                // (see WordInfos::get_word_info), so it must be a word of the lexicon being built
+                let own = self.entries.len();
+                ctx.transform(Self::validate_wid(
+                    WordId::new(0, e.dic_form.word()),
+                    own,
+                    own,
+                    "dic_form",
+                ))?;
             }
 
             for s in e.splits_a.iter() {
